@@ -140,6 +140,12 @@ def certificate_time_table(prog, chk):
              (2023, 2, 29, 0, 0, 0), (2100, 2, 29, 0, 0, 0), (2024, 4, 31, 0, 0, 0), (2024, 13, 1, 0, 0, 0), (2024, 0, 1, 0, 0, 0), (2024, 1, 0, 0, 0, 0), (2024, 1, 1, 24, 0, 0),
              (2024, 1, 1, 0, 60, 0), (2024, 1, 1, 0, 0, 60), (1969, 12, 31, 23, 59, 59), (3000, 1, 1, 0, 0, 0)]
 
+    if getattr(chk, "tier", "quick") == "thorough":
+        for y in list(range(1970, 2040)) + [2096, 2099, 2100, 2101, 2399, 2400, 2401, 2800, 2998, 2999]:
+            for mo in range(1, 13):
+                last = calendar.monthrange(y, mo)[1]
+                dates += [(y, mo, last, 23, 59, 59), (y, mo, last + 1, 0, 0, 0), (y, mo, 1, 0, 0, 0)]
+
     def valid(y, mo, d, h, mi, s):
         if not (1970 <= y < 3000 and 1 <= mo <= 12 and 0 <= h <= 23 and 0 <= mi <= 59 and 0 <= s <= 59):
             return False
